@@ -14,6 +14,7 @@ pub const K_COMP: u8 = 1; // Borrow::component / component_mut
 pub const K_FIND: u8 = 2; // ecs_find_borrow! with & / &mut parameter
 pub const K_ITER: u8 = 3; // ecs_iter_borrow! with & / &mut parameter
 pub const K_CLONE: u8 = 4; // world.clone() (inner only; borrows every column shared)
+pub const K_FINDD: u8 = 5; // ecs_find_borrow! keyed by a DIRECT handle (EntityDirect<ArchTri> / EntityDirectAny for ArchOther)
 
 #[derive(Clone, Copy)]
 pub struct Access {
@@ -35,6 +36,8 @@ pub struct Ctx<'a> {
     pub world: &'a W3,
     pub et: [Entity<ArchTri>; 2],
     pub eo: [Entity<ArchOther>; 2],
+    pub dt: [EntityDirect<ArchTri>; 2],
+    pub dov: [EntityDirectAny; 2],
     pub mt: &'a Model<2>,
     pub mo: &'a Model<2>,
 }
@@ -79,6 +82,15 @@ pub fn inner(cx: &Ctx, a: &Access) {
         (K_ITER, true, true, false) => { let mut n = 0; ecs_iter_borrow!(cx.world, |_q: &Q| { n += 1; }); assert!(n == 2) }
         (K_ITER, true, true, true) => { let mut n = 0; ecs_iter_borrow!(cx.world, |_q: &mut Q| { n += 1; }); assert!(n == 2) }
 
+        (K_FINDD, false, false, false) => assert!(ecs_find_borrow!(cx.world, cx.dt[e], |p: &P| p.0) == Some(cx.mt.val[e])),
+        (K_FINDD, false, false, true) => assert!(ecs_find_borrow!(cx.world, cx.dt[e], |p: &mut P| p.0) == Some(cx.mt.val[e])),
+        (K_FINDD, false, true, false) => assert!(ecs_find_borrow!(cx.world, cx.dt[e], |p: &Pad| p.1) == Some(cx.mt.aux[e])),
+        (K_FINDD, false, true, true) => assert!(ecs_find_borrow!(cx.world, cx.dt[e], |p: &mut Pad| p.1) == Some(cx.mt.aux[e])),
+        (K_FINDD, true, false, false) => assert!(ecs_find_borrow!(cx.world, cx.dov[e], |p: &P| p.0) == Some(cx.mo.val[e])),
+        (K_FINDD, true, false, true) => assert!(ecs_find_borrow!(cx.world, cx.dov[e], |p: &mut P| p.0) == Some(cx.mo.val[e])),
+        (K_FINDD, true, true, false) => assert!(ecs_find_borrow!(cx.world, cx.dov[e], |q: &Q| q.0) == Some(cx.mo.aux[e] as u16)),
+        (K_FINDD, true, true, true) => assert!(ecs_find_borrow!(cx.world, cx.dov[e], |q: &mut Q| q.0) == Some(cx.mo.aux[e] as u16)),
+
         _ => {
             let c = cx.world.clone();
             assert!(c.arch_tri.len() == 2 && c.arch_other.len() == 2);
@@ -118,6 +130,15 @@ pub fn with_outer(cx: &Ctx, a: &Access, mut f: impl FnMut()) {
         (K_FIND, true, true, false) => { ecs_find_borrow!(cx.world, cx.eo[e], |q: &Q| { f(); assert!(q.0 == cx.mo.aux[e] as u16); }); }
         (K_FIND, true, true, true) => { ecs_find_borrow!(cx.world, cx.eo[e], |q: &mut Q| { f(); assert!(q.0 == cx.mo.aux[e] as u16); }); }
 
+        (K_FINDD, false, false, false) => { ecs_find_borrow!(cx.world, cx.dt[e], |p: &P| { f(); assert!(p.0 == cx.mt.val[e]); }); }
+        (K_FINDD, false, false, true) => { ecs_find_borrow!(cx.world, cx.dt[e], |p: &mut P| { f(); assert!(p.0 == cx.mt.val[e]); }); }
+        (K_FINDD, false, true, false) => { ecs_find_borrow!(cx.world, cx.dt[e], |p: &Pad| { f(); assert!(p.1 == cx.mt.aux[e]); }); }
+        (K_FINDD, false, true, true) => { ecs_find_borrow!(cx.world, cx.dt[e], |p: &mut Pad| { f(); assert!(p.1 == cx.mt.aux[e]); }); }
+        (K_FINDD, true, false, false) => { ecs_find_borrow!(cx.world, cx.dov[e], |p: &P| { f(); assert!(p.0 == cx.mo.val[e]); }); }
+        (K_FINDD, true, false, true) => { ecs_find_borrow!(cx.world, cx.dov[e], |p: &mut P| { f(); assert!(p.0 == cx.mo.val[e]); }); }
+        (K_FINDD, true, true, false) => { ecs_find_borrow!(cx.world, cx.dov[e], |q: &Q| { f(); assert!(q.0 == cx.mo.aux[e] as u16); }); }
+        (K_FINDD, true, true, true) => { ecs_find_borrow!(cx.world, cx.dov[e], |q: &mut Q| { f(); assert!(q.0 == cx.mo.aux[e] as u16); }); }
+
         // the inner access is made during the FIRST closure call of the iteration
         (K_ITER, false, false, false) => { let mut first = true; ecs_iter_borrow!(cx.world, |_e: &Entity<ArchTri>, _p: &P| { if first { first = false; f(); } }); }
         (K_ITER, false, false, true) => { let mut first = true; ecs_iter_borrow!(cx.world, |_e: &Entity<ArchTri>, _p: &mut P| { if first { first = false; f(); } }); }
@@ -148,7 +169,11 @@ fn world2() -> (W3, Model<2>, Model<2>) {
 }
 
 fn ctx<'a>(world: &'a W3, mt: &'a Model<2>, mo: &'a Model<2>) -> Ctx<'a> {
-    Ctx { world, et: [world.arch_tri.entities()[0], world.arch_tri.entities()[1]], eo: [world.arch_other.entities()[0], world.arch_other.entities()[1]], mt, mo }
+    let et = [world.arch_tri.entities()[0], world.arch_tri.entities()[1]];
+    let eo = [world.arch_other.entities()[0], world.arch_other.entities()[1]];
+    let dt = [world.arch_tri.to_direct(et[0]).unwrap(), world.arch_tri.to_direct(et[1]).unwrap()];
+    let dov = [world.arch_other.to_direct(eo[0]).unwrap().into_any(), world.arch_other.to_direct(eo[1]).unwrap().into_any()];
+    Ctx { world, et, eo, dt, dov, mt, mo }
 }
 
 /// A concrete outer access (kind, mutability, archetype, column; entity symbolic) held open
@@ -158,7 +183,7 @@ pub fn must_not_panic(okind: u8, omut: bool, oarch: bool, ocol: bool) {
     let (world, mt, mo) = world2();
     let cx = ctx(&world, &mt, &mo);
     let o = Access { kind: okind, mutable: omut, other_arch: oarch, second_col: ocol, second_entity: sym::any_bool() };
-    let i = any_access(K_CLONE);
+    let i = any_access(K_FINDD);
     sym::assume(!conflict(&o, &i));
     with_outer(&cx, &o, || inner(&cx, &i));
     cover!(omut || (i.kind != K_CLONE && o.other_arch == i.other_arch && o.second_col == i.second_col && !i.mutable), "shared + shared on the same column");
@@ -190,7 +215,7 @@ pub fn released_after(okind: u8, omut: bool, oarch: bool, ocol: bool) {
     let (world, mt, mo) = world2();
     let cx = ctx(&world, &mt, &mo);
     let o = Access { kind: okind, mutable: omut, other_arch: oarch, second_col: ocol, second_entity: sym::any_bool() };
-    let i = any_access(K_CLONE);
+    let i = any_access(K_FINDD);
     sym::assume(conflict(&o, &i));
     with_outer(&cx, &o, || {});
     inner(&cx, &i);
@@ -229,6 +254,9 @@ ok_cells! {
     c11_ok_iter_m_tri_p: K_ITER, true, false, false;
     c11_ok_iter_m_other_q: K_ITER, true, true, true;
     c11_ok_iter_s_other_p: K_ITER, false, true, false;
+    c11_ok_findd_s_tri_p: K_FINDD, false, false, false;
+    c11_ok_findd_m_other_q: K_FINDD, true, true, true;
+    c11_ok_findd_s_other_p: K_FINDD, false, true, false;
 }
 
 released_cells! {
@@ -288,5 +316,9 @@ panic_cells! {
     c11_panic_iter_m_iter_s: K_ITER, true, K_ITER, false, false, true;
     c11_panic_iter_s_iter_m: K_ITER, false, K_ITER, true, true, false;
     c11_panic_iter_m_clone: K_ITER, true, K_CLONE, false, true, false;
+    c11_panic_findd_m_findd_s: K_FINDD, true, K_FINDD, false, false, false;
+    c11_panic_findd_s_slice_m: K_FINDD, false, K_SLICE, true, true, false;
+    c11_panic_iter_s_findd_m: K_ITER, false, K_FINDD, true, true, true;
+    c11_panic_findd_m_clone: K_FINDD, true, K_CLONE, false, false, true;
 }
 
